@@ -180,6 +180,39 @@ func c11Spell(rng *Rng, k c11Class) (string, []string) {
 	return b.String(), kinds
 }
 
+// c11Near rewrites a crontab string without touching its tokens: other blanks between the fields, a
+// leading / trailing blank added or dropped, or the case of its letters changed (month / weekday names).
+// The caller calibrates the result (same schedule, accepted) and rejects a string it already has.
+func c11Near(rng *Rng, s string) (string, []string) {
+	if rng.Chance(25) {
+		up, low := strings.ToUpper(s), strings.ToLower(s)
+		if up != low && !strings.Contains(s, "TZ=") && !strings.HasPrefix(strings.TrimSpace(s), "@") {
+			if s != up && rng.Bool() {
+				return up, []string{"near:letter-case"}
+			}
+			if s != low {
+				return low, []string{"near:letter-case"}
+			}
+		}
+	}
+	fs := strings.Fields(s)
+	blanks := []string{" ", " ", "  ", "\t", " \t", "   "}
+	var b strings.Builder
+	if rng.Chance(30) {
+		b.WriteString(PickOne(rng, blanks))
+	}
+	for i, x := range fs {
+		if i > 0 {
+			b.WriteString(PickOne(rng, blanks))
+		}
+		b.WriteString(x)
+	}
+	if rng.Chance(30) {
+		b.WriteString(PickOne(rng, []string{" ", "\t", "\n", "  "}))
+	}
+	return b.String(), []string{"near:blanks-only"}
+}
+
 // c11PickCrontabs chooses the n crontab strings of a case (pairwise distinct strings). About a third of
 // the cases keep the ordinary single-space spellings; in the others every crontab is respelled and, half
 // of the time, two of them are different spellings of ONE schedule (they fire at the same instant, the
@@ -209,8 +242,15 @@ func c11PickCrontabs(c *Case, rng *Rng, n int) []string {
 	for i := 0; i < n; i++ {
 		k := c11Classes[cls[i]]
 		got := ""
+		// the second spelling of a schedule is, most of the time, a NEAR variant of the first one: the same
+		// text up to blanks (other separators, leading / trailing blank) or up to the case of its letters —
+		// strings that any "canonicalisation" of crontabs would identify although they are two crontabs
+		near := i > 0 && cls[i] == cls[0] && rng.Chance(60)
 		for try := 0; try < 20 && got == ""; try++ {
 			s, kinds := c11Spell(rng, k)
+			if near && try < 8 {
+				s, kinds = c11Near(rng, cts[0])
+			}
 			if try >= 10 && try%2 == 0 {
 				s, kinds = k.canonical(), nil
 			}
@@ -439,6 +479,7 @@ type c11Hook struct {
 	kubes  []c11Kube
 	scheds []c11Sched
 	v0     bool // legacy configuration format: {"schedule":[{"name","crontab","allowFailure"}]}, no configVersion
+	json   bool // v1 configuration printed as JSON instead of YAML
 }
 
 func (h c11Hook) yaml() string {
@@ -453,7 +494,59 @@ func (h c11Hook) yaml() string {
 		for _, s := range h.scheds {
 			l = append(l, sch{s.name, s.crontab, s.allowFailure})
 		}
-		out, _ := json.Marshal(map[string]interface{}{"schedule": l})
+		m := map[string]interface{}{}
+		if len(l) > 0 {
+			m["schedule"] = l
+		}
+		if len(h.kubes) > 0 {
+			var ks []map[string]interface{}
+			for _, k := range h.kubes {
+				ks = append(ks, map[string]interface{}{"name": k.name, "kind": "ConfigMap", "event": []string{"add"}})
+			}
+			m["onKubernetesEvent"] = ks
+		}
+		out, _ := json.Marshal(m)
+		return string(out) + "\n"
+	}
+	if h.json {
+		m := map[string]interface{}{"configVersion": "v1"}
+		var ks, ss []map[string]interface{}
+		for _, k := range h.kubes {
+			e := map[string]interface{}{"apiVersion": "v1", "kind": "ConfigMap"}
+			if k.name != "" {
+				e["name"] = k.name
+			}
+			if k.group != "" {
+				e["group"] = k.group
+			}
+			ks = append(ks, e)
+		}
+		for _, sc := range h.scheds {
+			e := map[string]interface{}{"crontab": sc.crontab}
+			if sc.name != "" {
+				e["name"] = sc.name
+			}
+			if sc.queue != "" {
+				e["queue"] = sc.queue
+			}
+			if sc.group != "" {
+				e["group"] = sc.group
+			}
+			if sc.allowFailure {
+				e["allowFailure"] = true
+			}
+			if len(sc.includes) > 0 {
+				e["includeSnapshotsFrom"] = sc.includes
+			}
+			ss = append(ss, e)
+		}
+		if len(ks) > 0 {
+			m["kubernetes"] = ks
+		}
+		if len(ss) > 0 {
+			m["schedule"] = ss
+		}
+		out, _ := json.Marshal(m)
 		return string(out) + "\n"
 	}
 	b.WriteString("configVersion: v1\n")
@@ -499,7 +592,7 @@ type c11Sys struct {
 	cancel   context.CancelFunc
 	in       *Interner
 	crontabs []string
-	hookIdx  map[string]int // hook name -> model number (position in hooksInOrder[Schedule] + 1)
+	hookIdx  map[string]int // hook name -> model number (position among the declared hooks with schedules + 1)
 	hookName []string
 	idNum    map[string]int // schedule entry uuid -> model id
 	queues   []string       // all queues (sorted by model number order of declaration)
@@ -595,20 +688,86 @@ func newC11Sys(r *Run, c *Case, hooks []c11Hook, crontabs []string) (*c11Sys, st
 	for _, q := range qs {
 		c.Op(fmt.Sprintf("queue %d", s.in.Id("queue/"+q)), "ok")
 	}
-	// the effective schedule bindings (what C10 is about) are the model's configuration
+	// The model's configuration is what the hooks DECLARE (the generated --config output), loaded by the
+	// model of config_v0.go / config_v1.go; the effective bindings the real loader handed to the
+	// controllers are the implementation's answer (`decl` lines) and are judged by `oracle loaded`:
+	// "that binding's name, group, allowFailure, snapshot list, queue" = the declared ones (absent name =
+	// "schedule", absent queue = "main", group adds the group's kubernetes binding names).
+	c.Op(fmt.Sprintf("defaults %d %d %d", s.in.Id("name/"+string(htypes.Schedule)), s.in.Id("queue/main"), s.in.Id("group/")), "ok")
 	names, _ := op.HookManager.GetHooksInOrder(htypes.Schedule)
+	inOrder := map[string]bool{}
+	for _, n := range names {
+		inOrder[n] = true
+	}
+	opt := func(pfx, v string) string {
+		if v == "" {
+			return "_"
+		}
+		return fmt.Sprint(s.in.Id(pfx + v))
+	}
 	nextID := 100
-	for i, name := range names {
-		s.hookIdx[name] = i + 1
-		s.hookName = append(s.hookName, name)
-		c.Op(fmt.Sprintf("hook %d", i+1), "ok")
-		for _, b := range op.HookManager.GetHook(name).GetConfig().Schedules {
+	hn := 0
+	for _, dh := range hooks {
+		if len(dh.scheds) == 0 {
+			continue
+		}
+		hn++
+		s.hookIdx[dh.file] = hn
+		s.hookName = append(s.hookName, dh.file)
+		ver, ans := "v1", "ok"
+		if dh.v0 {
+			ver = "v0"
+		}
+		if !inOrder[dh.file] {
+			ans = "not-in-schedule-order"
+		}
+		c.Op(fmt.Sprintf("hook %d %s", hn, ver), ans)
+		for _, k := range dh.kubes {
+			c.Op(fmt.Sprintf("kube %d %d %d", hn, s.in.Id("snap/"+k.name), s.in.Id("group/"+k.group)), "ok")
+		}
+		var got []htypes.ScheduleConfig
+		if inOrder[dh.file] {
+			if hk := op.HookManager.GetHook(dh.file); hk != nil && hk.GetConfig() != nil {
+				got = hk.GetConfig().Schedules
+			}
+		}
+		for i, d := range dh.scheds {
 			nextID++
+			line := fmt.Sprintf("decl %d %d %s %d %s %v %s %d", hn, nextID, opt("name/", d.name), s.cnum(d.crontab),
+				s.incl(d.includes), d.allowFailure, opt("queue/", d.queue), s.in.Id("group/"+d.group))
+			if i >= len(got) {
+				c.Op(line, "not-loaded")
+				continue
+			}
+			b := got[i]
 			s.idNum[b.ScheduleEntry.Id] = nextID
-			c.Op(fmt.Sprintf("binding %d %d %d %d %s %v %d %d", i+1, nextID, s.in.Id("name/"+b.BindingName), s.cnum(b.ScheduleEntry.Crontab),
-				s.incl(b.IncludeSnapshotsFrom), b.AllowFailure, s.in.Id("queue/"+b.Queue), s.in.Id("group/"+b.Group)), "ok")
+			obs := fmt.Sprintf("%d:%d:%s:%v:%d:%d", s.in.Id("name/"+b.BindingName), s.cnum(b.ScheduleEntry.Crontab),
+				s.incl(b.IncludeSnapshotsFrom), b.AllowFailure, s.in.Id("queue/"+b.Queue), s.in.Id("group/"+b.Group))
+			c.Op(line, obs)
+			c.Oracle(fmt.Sprintf("loaded h=%d id=%d got=%s", hn, nextID, obs))
+		}
+		if len(got) > len(dh.scheds) {
+			c.Op(fmt.Sprintf("extra-bindings %d", hn), fmt.Sprint(len(got)-len(dh.scheds)))
 		}
 	}
+	for _, n := range names {
+		if _, ok := s.hookIdx[n]; !ok {
+			c.Op("undeclared-hook-in-schedule-order", n)
+		}
+	}
+	// the reference counting is keyed by (crontab, binding id): ids identify bindings — over ALL hooks
+	// (hypothesis huniq of the theorems, checked on the ids the real loader generated)
+	nb := 0
+	distinct := map[string]bool{}
+	for _, n := range names {
+		if hk := op.HookManager.GetHook(n); hk != nil && hk.GetConfig() != nil {
+			for _, b := range hk.GetConfig().Schedules {
+				nb++
+				distinct[b.ScheduleEntry.Id] = true
+			}
+		}
+	}
+	c.Oracle(fmt.Sprintf("ids bindings=%d distinct=%d", nb, len(distinct)))
 	// the EnableScheduleBindings tasks bootstrapMainQueue queued, one per hook with schedules
 	op.TaskQueues.GetMain().Iterate(func(t task.Task) {
 		if t.GetType() == task_metadata.EnableScheduleBindings {
@@ -787,19 +946,33 @@ func (s *c11Sys) close() {
 	s.cancel()
 }
 
+// c11Configs renders the declared configurations (the hooks' --config outputs) for a case description.
+func c11Configs(hooks []c11Hook) string {
+	var parts []string
+	for _, h := range hooks {
+		parts = append(parts, fmt.Sprintf("%s=%q", h.file, h.yaml()))
+	}
+	return "[" + strings.Join(parts, " ") + "]"
+}
+
 func c11GenHooks(rng *Rng, crontabs []string) []c11Hook {
 	nh := rng.Range(1, 4)
 	queues := []string{"", "", "q1", "q2"}
 	groups := []string{"", "", "g1", "g2"}
 	var hooks []c11Hook
 	for i := 0; i < nh; i++ {
-		h := c11Hook{file: fmt.Sprintf("hook%d.sh", i+1), v0: rng.Chance(20)}
+		h := c11Hook{file: fmt.Sprintf("hook%d.sh", i+1), v0: rng.Chance(30)}
+		h.json = !h.v0 && rng.Chance(25)
 		nk := rng.Intn(3)
-		if h.v0 {
+		if h.v0 && rng.Bool() {
 			nk = 0
 		}
 		for k := 0; k < nk; k++ {
-			h.kubes = append(h.kubes, c11Kube{name: fmt.Sprintf("kube%d", k+1), group: PickOne(rng, groups)})
+			kb := c11Kube{name: fmt.Sprintf("kube%d", k+1), group: PickOne(rng, groups)}
+			if h.v0 {
+				kb.group = "" // the v0 format has no groups
+			}
+			h.kubes = append(h.kubes, kb)
 		}
 		ns := rng.Range(0, 3)
 		if (i == 0 || nk == 0) && ns == 0 {
@@ -826,7 +999,7 @@ func c11GenHooks(rng *Rng, crontabs []string) []c11Hook {
 }
 
 func runC11(r *Run) {
-	r.Rule = "crontabs: 3 pairwise distinct strings per case over 7 rare-date schedules; in 35% of the cases the ordinary single-space spellings, otherwise every crontab is respelled (runs of blanks/tabs between fields, leading/trailing blanks incl. newline, 5- or 6-field form, month/weekday names in any case, leading zeros, one-element ranges and lists, ? for *, descriptors @yearly/@annually/@every, TZ=Local prefix) and in half of those two crontabs are different spellings of ONE schedule; every spelling is calibrated against the real config check (accepted, same parsed schedule). part A: random histories (<= 30 ops) of scheduleManager.Add/Remove over 3 crontabs x 4 ids on a real manager (started or not; in 35% of the cases one crontab is a spec the cron library rejects), repeats and unknown pairs included; after every op every live cron registration's job is run and the crontab STRING it sends is read back. part B: 1-4 generated hooks with 0-3 schedule bindings each over the 3 crontabs, sharing crontabs, queues and groups (20% of the hooks in the legacy v0 configuration format), loaded by the real hook manager (--config); histories (<= 30 ops) of EnableScheduleBindings (the task from the main queue through taskHandler) / DisableScheduleBindings / direct schedule callback (one event) / injected firings of one crontab string / injected wall-clock instants (every registration of the schedule, whatever spelling registered it, fired back to back) through the started ManagerEventsHandler into the real queues. thorough adds every Add/Remove history of length <= 5 over 2 crontabs x 2 ids and every enable/disable history of length <= 4 over two hooks that share a crontab and a queue (a tick of each crontab after every op). A case is non-trivial when (A) it contains a repeated add, a removal of an unknown pair and a removal that empties a crontab, or (B) two bindings share a crontab and some tick produced >= 2 tasks; distinct = distinct op-line sequences."
+	r.Rule = "crontabs: 3 pairwise distinct strings per case over 7 rare-date schedules; in 35% of the cases the ordinary single-space spellings, otherwise every crontab is respelled (runs of blanks/tabs between fields, leading/trailing blanks incl. newline, 5- or 6-field form, month/weekday names in any case, leading zeros, one-element ranges and lists, ? for *, descriptors @yearly/@annually/@every, TZ=Local prefix) and in half of those two crontabs are different spellings of ONE schedule; every spelling is calibrated against the real config check (accepted, same parsed schedule). part A: random histories (<= 30 ops) of scheduleManager.Add/Remove over 3 crontabs x 4 ids on a real manager (started or not; in 35% of the cases one crontab is a spec the cron library rejects), repeats and unknown pairs included; after every op every live cron registration's job is run and the crontab STRING it sends is read back. part B: 1-4 generated hooks with 0-3 schedule bindings each over the 3 crontabs, sharing crontabs, queues and groups (30% of the hooks in the legacy v0 configuration format — half of those with onKubernetesEvent bindings —, 25% of the v1 hooks print JSON instead of YAML; names, queues, groups, includeSnapshotsFrom present or absent), loaded by the real hook manager (--config); the model's configuration is what the hooks DECLARE, loaded by the model of config_v0.go/config_v1.go, and every binding the real loader hands to the controller is judged against its declaration (oracle loaded: absent name = schedule, absent queue = main, group adds the group's kubernetes binding names); histories (<= 30 ops) of EnableScheduleBindings (the task from the main queue through taskHandler) / DisableScheduleBindings / direct schedule callback (one event) / injected firings of one crontab string / injected wall-clock instants (every registration of the schedule, whatever spelling registered it, fired back to back) through the started ManagerEventsHandler into the real queues. thorough adds every Add/Remove history of length <= 5 over 2 crontabs x 2 ids and every enable/disable history of length <= 4 over two hooks that share a crontab and a queue (a tick of each crontab after every op). A case is non-trivial when (A) it contains a repeated add, a removal of an unknown pair and a removal that empties a crontab, or (B) two bindings share a crontab and some tick produced >= 2 tasks; distinct = distinct op-line sequences."
 	// corpus: the asymmetries of Add/Remove read off the code
 	r.One(0, func(c *Case, _ *Rng) {
 		c.Desc = "corpus: same id added twice then removed once; unknown pair; invalid crontab between valid ones"
@@ -896,6 +1069,40 @@ func runC11(r *Run) {
 		s.enable(2)
 		s.disable(1)
 		all()
+	})
+	r.One(4, func(c *Case, _ *Rng) {
+		cts := []string{"7 3 1 1 *", "8 3 1 1 *", "9 3 1 1 *"}
+		hooks := []c11Hook{
+			// legacy v0 format: name, crontab, allowFailure only; queue "main", no group, no snapshots
+			{file: "hook1.sh", v0: true, scheds: []c11Sched{{crontab: cts[0]}, {name: "legacy", crontab: cts[1], allowFailure: true}}},
+			// v1, YAML: no queue / no name; group with kubernetes bindings, one of them listed explicitly
+			{file: "hook2.sh", kubes: []c11Kube{{name: "k1", group: "g1"}, {name: "k2", group: "g1"}, {name: "k3"}},
+				scheds: []c11Sched{{crontab: cts[0], group: "g1", includes: []string{"k2"}}, {name: "named", crontab: cts[1], queue: "q1", includes: []string{"k3"}}}},
+			// v1, JSON
+			{file: "hook3.sh", json: true, kubes: []c11Kube{{name: "k1", group: "g2"}},
+				scheds: []c11Sched{{crontab: cts[0], queue: "q1", group: "g2", allowFailure: true}, {name: "named", crontab: cts[2]}}},
+			// v0 with onKubernetesEvent next to the schedule
+			{file: "hook4.sh", v0: true, kubes: []c11Kube{{name: "k1"}}, scheds: []c11Sched{{name: "named", crontab: cts[0]}}},
+		}
+		c.Desc = fmt.Sprintf("corpus: every way a schedule entry can be declared (v0 / v1 YAML / v1 JSON; absent name, absent queue, group with kubernetes bindings) crontabs=%q configs=%s", cts, c11Configs(hooks))
+		c.Nontrivial = true
+		s, err := newC11Sys(r, c, hooks, cts)
+		if err != "" {
+			c.Op("setup", err)
+			return
+		}
+		defer s.close()
+		for h := 1; h <= 4; h++ {
+			s.enable(h)
+			for cn := 1; cn <= 3; cn++ {
+				s.tick(cn)
+			}
+		}
+		s.cb(1)
+		s.wtick(1)
+		s.disable(1)
+		s.tick(1)
+		s.tick(2)
 	})
 	nA := r.N(1500, 12000)
 	r.Cases(10, nA, 0, func(c *Case, rng *Rng) {
@@ -1005,14 +1212,33 @@ func runC11(r *Run) {
 		c.Nontrivial = shared && maxTasks >= 2
 		c.Note(fmt.Sprintf("B:hooks-with-schedules=%d", nh))
 		for _, h := range hooks {
-			if h.v0 {
-				c.Note("B:v0-config-hook")
+			if h.v0 && len(h.scheds) > 0 {
+				c.Note("B:v0-config-hook-with-schedule")
+			}
+			if h.json && len(h.scheds) > 0 {
+				c.Note("B:v1-json-config-hook-with-schedule")
+			}
+			for _, b := range h.scheds {
+				if !h.v0 && b.queue == "" {
+					c.Note("B:v1-binding-without-queue")
+				}
+				if b.name == "" {
+					c.Note("B:binding-without-name")
+				}
+				if !h.v0 && b.group != "" {
+					for _, k := range h.kubes {
+						if k.group == b.group {
+							c.Note("B:binding-in-group-with-kubernetes-bindings")
+							break
+						}
+					}
+				}
 			}
 		}
 		if maxTasks >= 2 {
 			c.Note("B:tick-with>=2-tasks")
 		}
-		c.Desc = fmt.Sprintf("B hooks=%d crontabs=%q", len(hooks), cts)
+		c.Desc = fmt.Sprintf("B hooks=%d crontabs=%q configs=%s", len(hooks), cts, c11Configs(hooks))
 	})
 	if r.Thorough() {
 		// every Add/Remove history of length <= 5 over 2 crontabs x 2 ids
